@@ -368,7 +368,7 @@ theorem children_safe (o : Obj) : Tri (PsOnly o.pid) (Fe.children (goodCfg r) o)
   unfold Fe.children
   refine tri_bind (tri_exc (raiseIfPidReused_safe r o) (fun _ _ _ h => nspOnly_psOnly h)) (fun _ _ => ?_)
   refine tri_bind (tri_exc (ppidMap_safe r) (fun _ _ _ h => h.elim)) (fun pm _ => ?_)
-  exact tri_bind (childrenLoop_full r o pm) (fun _ _ => tri_pure trivial)
+  exact tri_bind (childrenLoop_full r o _) (fun _ _ => tri_pure trivial)
 
 /-- the try block of parent(): nothing leaves it -/
 theorem parentBlock_safe (o : Obj) (pp ctime : Nat) :
